@@ -92,6 +92,8 @@ def static_unsupported(ast, lang):
                 bad[i] = {"status": "F31-default-initializer-names-a-range-tag"}
             if k == "packet_declaration" and d.get("parent_id") and not env.has_payload(env.decls[d["parent_id"]]):
                 bad[i] = {"status": "F32-child-of-payloadless-parent-uses-undeclared-span"}
+            if k in ("packet_declaration", "struct_declaration") and not d.get("fields"):
+                bad[i] = {"status": "F32-declaration-without-fields-uses-undeclared-span"}
         if lang == "java":
             if k == "enum_declaration" and d["width"] >= 32:
                 bad[i] = {"status": "F30-int-literal-too-large"}
